@@ -47,7 +47,42 @@ func main() {
 	}
 }
 
+// checkAll runs every registered property on one load of the tree (used by the
+// seeded-change matrix and the sensitivity run; the registered commands run one
+// property per process).
+func checkAll(tier string) int {
+	p, err := core.Load()
+	if err != nil {
+		fmt.Fprintf(os.Stderr, "olricvet: cannot analyse the tree: %v\n", err)
+		return 2
+	}
+	ids := rules.IDs()
+	sort.Strings(ids)
+	worst := 0
+	for _, id := range ids {
+		prop := rules.Lookup(id)
+		r := core.NewRun(p, id, tier)
+		r.Explain = prop.Explain
+		r.Assume = prop.Assume
+		func() {
+			defer func() {
+				if e := recover(); e != nil {
+					r.Unknown("analyser", "panic", "-", fmt.Sprintf("analyser panic: %v", e))
+				}
+			}()
+			prop.Run(r)
+		}()
+		if c := r.Finish(); c > worst {
+			worst = c
+		}
+	}
+	return worst
+}
+
 func check(id, tier string) (code int) {
+	if id == "all" {
+		return checkAll(tier)
+	}
 	prop := rules.Lookup(id)
 	if prop == nil {
 		fmt.Fprintf(os.Stderr, "no check registered for %s\n", id)
@@ -69,6 +104,9 @@ func check(id, tier string) (code int) {
 		}()
 		prop.Run(r)
 	}()
+	if tier == "thorough" {
+		r.Sensitivity = sensitivity(id, prop)
+	}
 	return r.Finish()
 }
 
